@@ -101,9 +101,14 @@ def run_case(case):
         return n + 2 + n % 2
 
     mp = (2 * dx, 1 * dy)
+    # dispersion runs: no re-centring, or re-centred on a point west and south of the map (a mast beside the mapped area; on even grids,
+    # where the window centre is a node)
+    mpd = (-1.25 * dx, -2.5 * dy) if (nx % 2 == 0 and ny % 2 == 0 and (nx + ny) % 4 == 0) else (0.0, 0.0)   # (never a whole number of cells: the padded twin must not land on the sentinel (0, 0))
+    if mpd != (0.0, 0.0):
+        buckets["dispersion_recentred_on_a_point_off_the_map"] = 1
     for fp in (False, True):
-        full = call(q0, dom, (over(nxe), over(nye)), halo, fp, mp if fp else (0.0, 0.0))
-        fullpad = call(qpad, domp, (over(nxe), over(nye)), 0.0, fp, (mp[0] + px * dx, mp[1] + py * dy) if fp else (0.0, 0.0))
+        full = call(q0, dom, (over(nxe), over(nye)), halo, fp, mp if fp else mpd)
+        fullpad = call(qpad, domp, (over(nxe), over(nye)), 0.0, fp, (mp[0] + px * dx, mp[1] + py * dy) if fp else ((mpd[0] + px * dx, mpd[1] + py * dy) if mpd != (0.0, 0.0) else (0.0, 0.0)))
         if full[0] != "ok" or fullpad[0] != "ok":
             viol.append({"what": "over_request_rejected", "tuple": (nx, ny, hk, fp), "outcome": full[:2] if full[0] != "ok" else fullpad[:2]})
             continue
@@ -114,7 +119,7 @@ def run_case(case):
                     continue
                 counters["tuples"] += 1
                 tup = (nx, ny, hk, mx, my, "footprint" if fp else "dispersion")
-                r = call(q0, dom, (mx, my), halo, fp, mp if fp else (0.0, 0.0))
+                r = call(q0, dom, (mx, my), halo, fp, mp if fp else mpd)
                 if r[0] != "ok":
                     counters[f"raised_{r[0]}"] += 1
                     buckets[f"raised:{r[0]}"] = buckets.get(f"raised:{r[0]}", 0) + 1
@@ -166,13 +171,13 @@ def run_case(case):
                     if not ok:
                         cm = (min(mx, nxe), min(my, nye))
                         if cm[0] % 2 == 0 and cm[1] % 2 == 0:
-                            r2 = call(q0, dom, cm, halo, fp, mp if fp else (0.0, 0.0))
+                            r2 = call(q0, dom, cm, halo, fp, mp if fp else mpd)
                             ok = r2[0] == "ok" and np.allclose(r2[3], f, rtol=0, atol=1e-12 * np.max(np.abs(f))) and np.allclose(r2[2], c, rtol=0, atol=1e-12 * np.max(np.abs(c)))
                     if not ok:
                         viol.append({"what": "mixed_over_request_is_neither_reading", "tuple": tup, "padded": (nxe, nye)})
                 # (c) registration under a halo: explicit pad / halo = 0 / crop at the same modes
                 if px or py:
-                    rp = call(qpad, domp, (mx, my), 0.0, fp, (mp[0] + px * dx, mp[1] + py * dy) if fp else (0.0, 0.0))
+                    rp = call(qpad, domp, (mx, my), 0.0, fp, (mp[0] + px * dx, mp[1] + py * dy) if fp else ((mpd[0] + px * dx, mpd[1] + py * dy) if mpd != (0.0, 0.0) else (0.0, 0.0)))
                     counters["padcrop_checks"] += 1
                     if rp[0] != "ok":
                         viol.append({"what": "halo_accepted_but_padded_equivalent_rejected", "tuple": tup, "outcome": rp})
